@@ -188,7 +188,25 @@ def _named_namespace():
 
     ns['_normalize_default_setter_s_one'] = s_one
     ns['_normalize_default_setter_s_raise'] = s_raise
+
+    # two rules of the subclass that check nothing; their constraint schemas are declared in the two documented
+    # docstring styles (a bare literal; prose followed by the separator line and the literal)
+    def _validate_vv_level(self, constraint, field, value):
+        """{'type': 'integer'}"""
+
+    def _validate_vv_flag(self, constraint, field, value):
+        """Marks a field; checks nothing.
+
+        The rule's arguments are validated against this schema:
+        {'type': 'boolean'}"""
+
+    ns['_validate_vv_level'] = _validate_vv_level
+    ns['_validate_vv_flag'] = _validate_vv_flag
     return ns
+
+
+# wrongly typed constraints for the rules only the subclass has
+VV_BAD_CONSTRAINTS = {'vv_level': 'three', 'vv_flag': 'yes'}
 
 
 VValidator = type(Validator)('VValidator', (Validator,), _named_namespace())
